@@ -74,6 +74,12 @@ def check_arc(a, what, case):
             dis.append({"clause": "LargeArc", "detail": "%s: |sweep| %r but large-arc flag %d" % (what, abs(a.sweep), fa)})
         elif abs(a.sweep - signed) > (1e-6 if loose else 1e-9):
             dis.append({"clause": "Extent", "detail": "%s: sweep %r, F.6.5 gives %r" % (what, a.sweep, signed)})
+        try:
+            dl = a.delta
+            if abs(math.radians(dl) - a.sweep) > 1e-9:
+                dis.append({"clause": "Extent", "detail": "%s: delta (degrees) %r does not match the sweep %r" % (what, dl, a.sweep)})
+        except Exception as e:
+            dis.append({"clause": "Raises", "detail": "%s: delta raised %s" % (what, type(e).__name__)})
         if not dis:
             for i in range(9):
                 t = i / 8.0
